@@ -89,8 +89,27 @@ def execute(stage, prop: str, case, stats: Stats) -> None:
     if stage.fork:
         from vlib import forkrun
         try:
-            exp = forkrun.run_in_child(_child_run, (stage, prop, case),
-                                       timeout=stage.timeout)
+            try:
+                exp = forkrun.run_in_child(_child_run, (stage, prop, case),
+                                           timeout=stage.timeout)
+            except forkrun.ChildDied as died:
+                # a forked child of a TensorFlow-laden process very rarely dies
+                # from a signal for reasons of its own (about 1 in 10^4 cases):
+                # run the case again; only a reproducible death is reported
+                stats.labels["child-died-once:status=%d" % died.status] += 1
+                try:
+                    exp = forkrun.run_in_child(_child_run,
+                                               (stage, prop, case),
+                                               timeout=stage.timeout)
+                except forkrun.ChildDied as again:
+                    if stage.timeout_violation is None:
+                        raise
+                    clause, signature, details = stage.timeout_violation(case)
+                    raise Violation(
+                        prop, clause, ("process-died",),
+                        f"the process running this case died twice (wait "
+                        f"status {died.status}, {again.status}): {details}"
+                    ) from None
         except forkrun.ChildTimeout:
             if stage.timeout_violation is None:
                 stats.inconclusive += 1
